@@ -450,14 +450,18 @@ func runAppendOnly(c *core.Ctx) []core.Obligation {
 						sizedFromDst := true
 						if ms, isMake := root(e).(*ssa.MakeSlice); isMake {
 							sizedFromDst = false
-							for _, sz := range []ssa.Value{ms.Len, ms.Cap} {
+							// copy() moves min(len(new), len(src)) bytes: the new buffer's length (not
+							// its capacity) is what must cover the source, and the source as it is
+							// when copied — a length taken before the last append leaves that byte
+							// behind
+							for _, sz := range []ssa.Value{ms.Len} {
 								if sz != nil && dependsOn(sz, func(x ssa.Value) bool {
 									call, ok := x.(*ssa.Call)
 									if !ok {
 										return false
 									}
 									bi, isB := call.Common().Value.(*ssa.Builtin)
-									return isB && (bi.Name() == "len" || bi.Name() == "cap") && len(call.Common().Args) == 1 && a.v[call.Common().Args[0]]
+									return isB && (bi.Name() == "len" || bi.Name() == "cap") && len(call.Common().Args) == 1 && call.Common().Args[0] == srcArg
 								}) {
 									sizedFromDst = true
 								}
